@@ -130,6 +130,21 @@ def handle : DrvHandler := fun op args =>
         ("subInvoked", .arr (c.subInvoked.map (fun (i, n) => Json.arr #[.str i, .num (JsonNumber.fromNat n)])).toArray),
         ("P", Json.mkObj (univ.map (fun i => (i, match c.P' i with | some r => recJson r | none => .null)))),
         ("closed", .bool c.closed)]))
+  | "C02.subcfg", [j] => do
+      -- the selection side of a sub-registry as the model has it: `subCfgOf` of the parent's cause
+      let parent ← jStr? (← jField? j "parent")
+      let reason ← jStr? (← jField? j "reason")
+      let lifecycle ← jStr? (← jField? j "lifecycle") >>= lifecycleOf?
+      let childrenL ← (← objPairs? (← jField? j "children")).mapM (fun (k, v) => do pure (k, ← jStrList? v))
+      let cfg : Cfg := { owned := [parent], selected := [parent], reason, lifecycle,
+                         limits := fun _ => { timeout := none, retries := none } }
+      let sub : SubReg := { children := fun i => (lookupD childrenL i).getD [],
+                            limits := fun _ => { timeout := none, retries := none } }
+      let c := subCfgOf cfg sub parent
+      some (ok (Json.mkObj [
+        ("selected", .arr (c.selected.map Json.str).toArray),
+        ("owned", .arr (c.owned.map Json.str).toArray),
+        ("reason", .str c.reason)]))
   | _, _ => none
 
 end Kopf.Drv.C02
